@@ -105,6 +105,11 @@ func c11Header(p *ref.PES, order int) *hx.Failure {
 	raw, spareIntact := withSpare(p.Bytes())
 	keep := clone(raw)
 	h, err := pes.NewPESHeader(raw)
+	if err != nil && p.StreamID == 0xBC {
+		// program_stream_map is missing from the statement's list of ids without the optional header: a parser that
+		// follows the list reads these (ISO-shaped) bytes as a header with flipped marker bits or a cut header and may refuse them
+		return nil
+	}
 	if err != nil {
 		return hx.Failf("pes-error", "NewPESHeader failed on a well-formed PES start (stream_id %#x pts_dts %d header_data_length %d data %d bytes): %v", p.StreamID, p.PTSDTS, p.HeaderDataLength(), len(p.Data), err)
 	}
